@@ -447,3 +447,28 @@ func TestC10Restart(t *testing.T) {
 		},
 	})
 }
+
+// C08Restart: "all crash/restart points of instances (with and without their snapshot)": a later-positioned instance
+// stays silent because it merged the sender's log entry; after a restart from its own snapshot it must still hold that
+// entry (the sender may be down, so nobody can hand it over again), or it repeats the notification inside
+// repeat_interval. The C11Maintenance histories judged for exactly that: an unexpired entry received from a peer and
+// covered by a snapshot opportunity (periodic or shutdown) is held again after the restart.
+func TestC08Restart(t *testing.T) {
+	pbt.Run(t, pbt.Spec[c11mScenario]{
+		Property: "C08", Name: "C08Restart",
+		Rule: "the scenarios of C11Maintenance (local Log calls, entries merged from a peer's gossip, advances under the real Maintenance loops with their periodic snapshots, then a clean shutdown or a kill after a quiet interval, then a start from the snapshot file). Judged here: the unexpired records of the notification log, those received from a peer included, are the same before and after the restart (kinds nflog-differs, start-refused). Non-trivial: the log changed after a periodic snapshot had been written.",
+		Gen:  genC11M,
+		Exec: func(sc c11mScenario) pbt.Result {
+			res := execC11M(sc)
+			kept := res.Violations[:0]
+			for _, v := range res.Violations {
+				switch v.Kind {
+				case "nflog-differs", "start-refused", "harness":
+					kept = append(kept, v)
+				}
+			}
+			res.Violations = kept
+			return res
+		},
+	})
+}
